@@ -115,11 +115,66 @@ def rt_in_sysex(cx, L, r):
         cx.check(out[-1] == sx and cx.eq(list(out[-1].data), data), 'sysex-intact')
 
 
+CLASS = [0x00, 0x41, 0x7F, 0x85, 0x93, 0xC2, 0xE1, 0xF0, 0xF1, 0xF2, 0xF3, 0xF6, 0xF7, 0xF8, 0xF9, 0xFE, 0xFF]
+CONTAINERS = ['bytes', 'bytearray', 'tuple', 'generator']
+
+
+@harness(labels=['containers-agree'])
+def containers(cx, N):
+    """The same stream (N bytes, one representative per byte class each, chosen by certified forks) cut at a
+    symbolic position and fed as real bytes / bytearray / tuple / generator chunks - with a sysex possibly open
+    at the cut - must parse like the list fed at once."""
+    import mido
+    pre = [[], [0xF0, 1], [0x90, 2]][cx.choice('open', 3)]
+    items = pre + [CLASS[cx.choice('c%d' % i, len(CLASS))] for i in range(N)]
+    want = mido.parse_all(list(items))
+    cut = len(pre) + cx.choice('cut', N + 1)
+    kind = CONTAINERS[cx.choice('container', len(CONTAINERS))]
+
+    def mk(chunk):
+        if kind == 'bytes':
+            return bytes(chunk)
+        if kind == 'bytearray':
+            return bytearray(chunk)
+        if kind == 'tuple':
+            return tuple(chunk)
+        return (b for b in chunk)
+    p = mido.Parser()
+    got, exc = cx.raises(lambda: (p.feed(mk(items[:cut])), p.feed(mk(items[cut:])), list(p))[2],
+                         label='containers-agree')
+    if exc is None:
+        cx.check(len(got) == len(want) and all(a == b for a, b in zip(got, want)), 'containers-agree')
+
+
+SCALE = [127, 128, 1000, 16384, 65535, 65536, 70000]
+
+
+@harness(labels=['large-sysex-recognised', 'many-messages-all-delivered'])
+def scale(cx):
+    """Concrete scale probes (one execution each, no symbolic dimension): a sysex of a boundary length after a
+    broken prefix, and a long concatenation of messages."""
+    import mido
+    L = SCALE[cx.choice('len', len(SCALE))]
+    sx = mido.Message('sysex', data=[i % 128 for i in range(L)])
+    kind = cx.choice('container', 2)
+    stream = [0x90, 5] + sx.bytes() + [0xF8]
+    out = mido.parse_all(bytes(stream) if kind else stream)
+    cx.check(len(out) == 2 and out[0] == sx and out[1].type == 'clock', 'large-sysex-recognised')
+    n = [1000, 1025, 70000][cx.choice('count', 3)]
+    msgs = [mido.Message('note_on', note=i % 128, velocity=(i // 128) % 128, channel=i % 16) for i in range(n)]
+    stream = [b for m in msgs for b in m.bytes()]
+    out = mido.parse_all(stream)
+    cx.check(len(out) == n and out[0] == msgs[0] and out[-1] == msgs[-1] and out[n // 2] == msgs[n // 2],
+             'many-messages-all-delivered')
+
+
 BOUNDS = {
     'quick': 'inductive: every tokenizer state satisfying the invariant (buffer 1..4 active / 0..1 stale idle) x every one '
              'of the 18 message types with symbolic in-range attributes (sysex payload 0..6), fed whole or byte-wise; direct '
              'twin: every prefix of 0..2 arbitrary bytes x every type; concatenations of 2 messages of symbolic types; '
-             'real-time bytes F8..FF (defined and undefined) 1..3 of them at every insertion position inside a sysex of payload 0..4',
+             'real-time bytes F8..FF (defined and undefined) 1..3 of them at every insertion position inside a sysex of payload 0..4; '
+             'streams of <=2 (thorough 3) class-representative bytes after an open sysex / open note fed as real bytes, bytearray, tuple and '
+             'generator chunks cut at every position; concrete scale probes (sysex of 127..70000 bytes, 1000..70000 messages)',
     'thorough': 'sysex payload up to 16; concatenations of 3 messages; prefix up to 3 bytes for a subset of types; r<=3 in L<=6',
 }
 OUTSIDE = 'sysex payload longer than stated; more than 3 real-time bytes inside one sysex; prefixes longer than the direct ' \
@@ -141,6 +196,9 @@ def JOBS(tier):
     if not quick:
         for t in ('note_on', 'clock', 'sysex', 'songpos', 'tune_request'):
             jobs.append((resync_direct, {'type': t, 'N': 3, 'L': 1}, {'cost': 12000}))
+    for N in ((1, 2) if quick else (1, 2, 3)):
+        jobs.append((containers, {'N': N}, {'cost': 17 ** N // 4}))
+    jobs.append((scale, {}, {'cost': 50}))
     jobs.append((concat, {'n': 1}, {}))
     jobs.append((concat, {'n': 2}, {'cost': 500}))
     if not quick:
